@@ -1,13 +1,16 @@
 """In-process invocation of the real CLI entry point gaftools.__main__.main(argv) with
 outcome classification:  ok | reported | usage | internal_error | nontermination."""
 
+import atexit
 import collections
 import hashlib
 import io
 import logging
 import os
 import pickle
+import shutil
 import sys
+import tempfile
 import time
 import traceback
 import warnings
@@ -89,7 +92,14 @@ def _where(tb):
 
 
 STALE = collections.Counter()
+_SHM_TMP = None
 _STALE_GAF = "".join(f"stale{i}\t9\t0\t9\t+\t>zz{i}\t9\t0\t9\t9\t9\t60\tNM:i:0\n" for i in range(3))
+
+
+_STALE_STAT = ("Total alignments: 977\n\tPrimary: 970\n\tSecondary: 7\nReads with at least one alignment: 961\n"
+               "Total aligned bases: 123456\nAverage mapping quality: 59.1\nAverage highest sequence identity: 0.5\n"
+               "Average highest map ratio: 0.5\nTotal deletion regions: 11 (1 >50bps)\nTotal insertion regions: 12 (1 >50bps)\n"
+               "Total substitution regions: 13 (1 >50bps)\nTotal match regions: 14 (1 >50bps)\nTotal perfect alignments (exact match): 3\n")
 
 
 def plant_stale_outputs(argv):
@@ -116,6 +126,12 @@ def plant_stale_outputs(argv):
         if kind == "index":
             with open(path, "wb") as f:
                 pickle.dump({("zz0", "chrStale", 0, 9): [0, 5], "chrStale": [0, 5], "ref_contig": ["chrStale"]}, f)
+        elif argv[0] == "stat":
+            with open(path, "w") as f:
+                f.write(_STALE_STAT)
+        elif argv[0] == "find_path":
+            with open(path, "w") as f:
+                f.write(">seq_>zz0\nACGTACGT\nTTTT\n")
         else:
             with open(path, "w") as f:
                 f.write(_STALE_GAF)
@@ -153,6 +169,21 @@ def run_cli(argv, capture_stdout=True, stale=True):
     if stale:
         plant_stale_outputs(argv)
     argv, old_cwd = relativize(argv)
+    key = ",".join(os.path.basename(a) for a in argv)
+    h = int(hashlib.sha1(("env," + key).encode()).hexdigest()[:6], 16)
+    if h % 10 == 0:
+        # the global --debug switch only changes what is logged
+        argv = ["--debug"] + argv
+        STALE["debug_flag_runs"] += 1
+    old_tmp = tempfile.tempdir
+    if h % 7 == 0 and os.path.isdir("/dev/shm"):
+        # temporary files on another file system than the inputs and outputs (TMPDIR on tmpfs)
+        global _SHM_TMP
+        if _SHM_TMP is None:
+            _SHM_TMP = tempfile.mkdtemp(prefix="vf-tmp-", dir="/dev/shm")
+            atexit.register(shutil.rmtree, _SHM_TMP, True)
+        tempfile.tempdir = _SHM_TMP
+        STALE["tmpdir_on_other_filesystem_runs"] += 1
 
     root = logging.getLogger()
     old_handlers = list(root.handlers)
@@ -193,6 +224,7 @@ def run_cli(argv, capture_stdout=True, stale=True):
         sys.stdout, sys.stderr = old_out, old_err
         if old_cwd is not None:
             os.chdir(old_cwd)
+        tempfile.tempdir = old_tmp
         for h in list(root.handlers):
             root.removeHandler(h)
         for h in old_handlers:
